@@ -294,6 +294,32 @@ Definition relax (w sp : world) (fs : list failure) : world :=
   {| wclasses := map (fun sc => relax_class fs (find_class (wclasses w) (cid sc)) sc) (wclasses sp);
      wreg20 := wreg20 sp; wreg21 := wreg21 sp; wtlp20 := wtlp20 sp; wtlp21 := wtlp21 sp |}.
 
+(* restrict w sp fs: the specification tables narrowed, at every place named in fs (the C03 direction:
+   places where the library is stricter), to what the library's table lets through: kind taken from the
+   library's slot, `required` added, the library's extra constraint added, the unknown property removed.
+   The C03 theorem is instantiated with restrict lib spec (accept_failures spec lib).                 *)
+Definition restrict_class (fs : list failure) (lc : option cls) (sc : cls) : cls :=
+  let id := cid sc in
+  let lslot (n : ustring) := match lc with Some l => find_slot l n | None => None end in
+  {| cid := id; cver := cver sc; ctype := ctype sc; cfamily := cfamily sc;
+     cslots :=
+       map (fun s' =>
+              let k := if has_fkind fs id (sname s') then match lslot (sname s') with Some s => skind s | None => skind s' end
+                       else skind s' in
+              {| sname := sname s'; skind := k; sreq := sreq s' || has_frequired fs id (sname s'); sdef := sdef s' |})
+           (filter (fun s' => negb (has_funknown fs id (sname s'))) (cslots sc));
+     ccons := ccons sc ++
+              match lc with
+              | Some l => map snd (filter (fun ik => has_fconstraint fs id (fst ik))
+                                          (combine (seq 0 (List.length (ccons l))) (ccons l)))
+              | None => []
+              end;
+     cinit := cinit sc; cidcontrib := cidcontrib sc; cserialize_tlp := cserialize_tlp sc |}.
+
+Definition restrict (w sp : world) (fs : list failure) : world :=
+  {| wclasses := map (fun sc => restrict_class fs (find_class (wclasses w) (cid sc)) sc) (wclasses sp);
+     wreg20 := wreg20 sp; wreg21 := wreg21 sp; wtlp20 := wtlp20 sp; wtlp21 := wtlp21 sp |}.
+
 (* ---------- rendering: one failure per line, fields separated by '|' ---------- *)
 Definition show_failure (f : failure) : string :=
   match f with
